@@ -479,3 +479,47 @@ VARIANTS += [
     V("c15-b2", "C15", "simulator", "_LSHSimulator._get_neighbors", "indices = list()", "indices = list()\npass",
       benign=True),
 ]
+
+# ---------------------------------------------------------------------------------------------------- C16
+VARIANTS += [
+    V("c16-m1", "C16", "simulator", "Simulator._online_test_bandits_chunks",
+      "chunk_start = j * self._chunk_size", "chunk_start = 0", "R16.1",
+      why="every chunk of a batch predicts the first rows again (the repaired defect)"),
+    V("c16-m2", "C16", "simulator", "Simulator._offline_test_bandits", "start = idx * self._chunk_size",
+      "start = idx * (self._chunk_size - 1)", "R16.1", why="offline chunks overlap by one row"),
+    V("c16-m3", "C16", "simulator", "default_evaluator",
+      "if row_neighborhood_stats and row_neighborhood_stats[predicted_arm]:\n    "
+      "arm_to_rewards[predicted_arm].append(row_neighborhood_stats[predicted_arm][stat])\nelse:\n    "
+      "arm_to_rewards[predicted_arm].append(arm_to_stats[predicted_arm][stat])",
+      "if row_neighborhood_stats and row_neighborhood_stats[predicted_arm]:\n    "
+      "arm_to_rewards[predicted_arm].append(row_neighborhood_stats[predicted_arm][stat])\n"
+      "arm_to_rewards[predicted_arm].append(arm_to_stats[predicted_arm][stat])", "R16.2",
+      why="rows with neighbourhood statistics are credited twice"),
+    V("c16-m4", "C16", "simulator", "Simulator._run_train_test_split",
+      "train_indices, test_indices, train_decisions, test_decisions, train_rewards, test_rewards = "
+      "train_test_split(indices, self.decisions, self.rewards, test_size=self.test_size, random_state=self.seed)",
+      "train_indices, test_indices, train_decisions, test_decisions, test_rewards, train_rewards = "
+      "train_test_split(indices, self.decisions, self.rewards, test_size=self.test_size, random_state=self.seed)",
+      "R16.3", why="train and test rewards swapped in the unpacking"),
+    V("c16-m5", "C16", "simulator", "Simulator._run_train_test_split",
+      "test_rewards = self.rewards[train_size:]", "test_rewards = self.rewards[train_size + 1:]", "R16.3",
+      why="test rewards shifted by one row against test decisions"),
+    V("c16-m6", "C16", "simulator", "Simulator._online_test_bandits_chunks", "start += self.batch_size",
+      "start += self.batch_size - 1", "R16.1", why="batches overlap"),
+    V("c16-m7", "C16", "simulator", "Simulator.run", 'self._set_stats("test", test_decisions, test_rewards)',
+      'self._set_stats("test", test_decisions, train_rewards)', "R16.4",
+      why="test statistics computed from training rewards"),
+    V("c16-m9", "C16", "simulator", "Simulator._offline_test_bandits",
+      "self.bandit_to_predictions[name] = self.bandit_to_predictions[name] + predictions",
+      "self.bandit_to_predictions[name] = predictions + self.bandit_to_predictions[name]", "R16.4",
+      why="chunks are accumulated in reverse order"),
+    V("c16-m10", "C16", "simulator", "Simulator._online_test_bandits_chunks",
+      "chunk_stop = min(chunk_start + self._chunk_size, len(batch_decisions))",
+      "chunk_stop = min(chunk_start + self._chunk_size - 1, len(batch_decisions))", "R16.1",
+      why="last row of every chunk skipped"),
+    V("c16-b1", "C16", "simulator", "Simulator._offline_test_bandits", "start = idx * self._chunk_size",
+      "start = self._chunk_size * idx", benign=True),
+    V("c16-b2", "C16", "simulator", "Simulator._run_train_test_split",
+      "self.test_indices = [x for x in range(train_size, len(self.decisions))]",
+      "self.test_indices = list(range(train_size, len(self.decisions)))", benign=True),
+]
